@@ -60,7 +60,7 @@ func main() {
 		}(j)
 	}
 	wg.Wait()
-	run.Assume("a connection counts as open on the reference side from accept/connect until its reader saw EOF; a limit is judged exceeded only when the same connections stay open together for 250 ms (load canary < 100 ms)")
+	run.Assume("a connection counts as open on the reference side from accept/connect until its reader saw EOF; a limit is judged exceeded only when the same connections stay open together for 2 s during which the torrent's event loop answered 40 Stats() calls (load canary < 100 ms)")
 	run.Assume("rates are judged from the start of the transfer: bytes(t) <= rate*(t-t0) + 1 s burst + 2 blocks")
 	run.Assume("configuration lattice uses values >= 1 for every limit (zero is not claimed legal)")
 	run.Finish(500)
